@@ -94,6 +94,9 @@ type bfClosure struct {
 	fn   *ssa.Function
 	bind []any
 }
+// bfOpaqueFn: a function value the rule models itself (the hash function stored in a structure)
+type bfOpaqueFn struct{ name string }
+
 type bfIter struct {
 	kind string // "All", "Backward", "Values"
 	sl   bfSlice
@@ -1182,6 +1185,12 @@ func (m *bfMachine) doCall(fr *bfFrame, heap bfHeap, x *ssa.Call, depth int) []b
 		case bfIter:
 			if clo, ok := args[0].(bfClosure); ok && len(args) == 1 && len(clo.fn.Blocks) > 0 {
 				return m.iterate(fv, clo, heap, depth+1)
+			}
+		case bfOpaqueFn:
+			if m.hook != nil {
+				if v, ok := m.hook(nil, args, heap); ok {
+					return one(v)
+				}
 			}
 		}
 		return unknownResult()
